@@ -516,6 +516,7 @@ pub fn render(c: &Case) -> serde_json::Value {
 pub fn run(e: &Engine) {
     e.assume("creation times are non-decreasing along the chain (creation order follows commit order on a real store); the retention age is measured against the real clock with margins of days");
     e.assume("replicas based on a version that the rules allow to delete (older than 180 days and covered by a retained snapshot) are promised nothing; a cleanup that stopped halfway is judged by the same retention rules");
+    e.set_shrink_iters(1500);
     e.campaign(
         "cleanup-schedules",
         "initial store: chain of 0-8 versions with an old prefix and a recent suffix, snapshots at generated positions, orphan objects (loser siblings, a candidate child of latest, unrelated garbage), one replica synced at every initial version; 1-3 clients with scripts of add-version (optionally followed by cleanup), add-snapshot, cleanup (optionally failing at its k-th request), get-child; generated schedule at single-request granularity, list page size 1-3; retention rules evaluated on the final store, walks from every retained snapshot, fresh and old replicas must sync to the latest state; non-trivial = a cleanup's requests overlapped another client's add-version, add-snapshot or cleanup",
